@@ -16,6 +16,9 @@ import copy
 import json
 import re
 
+import sys
+
+import c07_nontext
 import env
 import translate_c07
 from core import Exn, cstr, cbool, copt, clist
@@ -28,18 +31,19 @@ from saml2_tophat.extension import mdattr
 from saml2_tophat.server import Server
 
 CLAIM = {
-    "text": "Coq theorems (Props/C07.v) over the model of _filter_values/_match/filter_on_attributes/filter_attribute_value_assertions/post_entity_categories/Policy.compile,get,filter,restrict/Assertion.apply_policy/Server.setup_assertion/_authn_response/create_attribute_response, for EVERY identity, compiled policy, SP declaration, regex matcher and attribute map (induction over the lists). C07_release_subset: whatever apply_policy leaves in the assertion has identity names and identity values only; when attribute_restrictions apply every released name (lower-cased) is one of their keys and every value matches one of its patterns; when the entity-category rules yield an allowance every released name is in it; otherwise, when required/optional declarations exist, every released name and value is covered by a declaration. C07_every_outcome (FULL, incl. the MissingValue/best_effort path): every outcome of create_authn_response is an exception or an assertion satisfying all four clauses; C07_setup_assertion_every_outcome the same for both values of best_effort (False: error response); C07_best_effort_is_policy_filtered / C07_authn_response_always_answers: on the MissingValue path the assertion is the identity narrowed by Policy.filter run with the SP's demands as wishes, never an error response, MissingValue never escapes; C07_attribute_response_every_outcome for the attribute authority with an aa policy. These are proved for the model of Server.setup_assertion AS REPAIRED by proposed_fix/C07-1.diff (the check expects /repo + that diff); the code before the repair is kept as setup_assertion_before_fix with C07_every_outcome_before_fix_refuted (witness: secret released despite attribute_restrictions, replayed on the implementation) and C07_before_fix_characterised. Entity-category clause, non-circular: C07_category_allowance_exact (post_entity_categories lets through exactly what a row entitles the SP to) and C07_category_allowance_documented / C07_every_outcome_documented_categories (for a policy compiled over the REGENERATED Gen/EntityCat.v every released name is entitled to by a row of the hand-written documented table of a module configured for this SP); C07_entity_category_tables: regenerated tables = documented ones (as sets). Restriction LISTS of regular expressions (Model/PolicyRx.v): C07_each_expression_on_its_own - IFF - a value of a regex-restricted attribute is released iff it is an identity value and some SINGLE expression of that attribute's list matches it (each expression compiled and matched on its own by the engine argument); C07_restriction_list_pointwise: the release depends on the engine only through the (expression, value) pairs of the attribute's own list, so a flag of one expression or a merged alternation cannot matter; C07_value_matching_no_expression_withheld. Entity categories from raw metadata: C07_categories_only_under_their_name (IFF: the SP's categories are exactly the values listed under the entity-category Name of EntityAttributes, every occurrence), C07_other_entity_attributes_do_not_count, C07_entitlement_from_raw_metadata (values under entity-category-support or any other Name never entitle). ONLY TESTED (not proved): that the model agrees with the Python - function-level and end-to-end correspondence on long-lived Policy/Server objects with request sequences for different SPs, plus an implementation-level release oracle.",
-    "note": "Trusted: Coq kernel + vm_compute; hand-written model tied to the code by the correspondence units; Python re and the attribute maps enter the model as per-case truth tables (quantified in the theorems); str.lower modelled for ASCII, generators use only names on which Python agrees; identities are dicts of lists of strings (a bare string value is outside the model); value multiplicity/order is not compared (list(set(..)) and list aliasing in filter_on_attributes make it unspecified); pefim and encrypt paths, name_form without converter (releases nothing), create_attribute_response without an aa policy (applies no policy object: observation, lemma C07_attribute_response_no_policy) are outside the claim.",
+    "text": "Coq theorems (Props/C07.v) over the model of _filter_values/_match/filter_on_attributes/filter_attribute_value_assertions/post_entity_categories/Policy.compile,get,filter,restrict/Assertion.apply_policy/Server.setup_assertion/_authn_response/create_attribute_response, for EVERY identity, compiled policy, SP declaration, regex matcher and attribute map (induction over the lists). C07_release_subset: whatever apply_policy leaves in the assertion has identity names and identity values only; when attribute_restrictions apply every released name (lower-cased) is one of their keys and every value matches one of its patterns; when the entity-category rules yield an allowance every released name is in it; otherwise, when required/optional declarations exist, every released name and value is covered by a declaration. C07_every_outcome (FULL, incl. the MissingValue/best_effort path): every outcome of create_authn_response is an exception or an assertion satisfying all four clauses; C07_setup_assertion_every_outcome the same for both values of best_effort (False: error response); C07_best_effort_is_policy_filtered / C07_authn_response_always_answers: on the MissingValue path the assertion is the identity narrowed by Policy.filter run with the SP's demands as wishes, never an error response, MissingValue never escapes; C07_attribute_response_every_outcome for the attribute authority with an aa policy. These are proved for the model of Server.setup_assertion AS REPAIRED by proposed_fix/C07-1.diff (the check expects /repo + that diff); the code before the repair is kept as setup_assertion_before_fix with C07_every_outcome_before_fix_refuted (witness: secret released despite attribute_restrictions, replayed on the implementation) and C07_before_fix_characterised. Entity-category clause, non-circular: C07_category_allowance_exact (post_entity_categories lets through exactly what a row entitles the SP to) and C07_category_allowance_documented / C07_every_outcome_documented_categories (for a policy compiled over the REGENERATED Gen/EntityCat.v every released name is entitled to by a row of the hand-written documented table of a module configured for this SP); C07_entity_category_tables: regenerated tables = documented ones (as sets). Restriction LISTS of regular expressions (Model/PolicyRx.v): C07_each_expression_on_its_own - IFF - a value of a regex-restricted attribute is released iff it is an identity value and some SINGLE expression of that attribute's list matches it (each expression compiled and matched on its own by the engine argument); C07_restriction_list_pointwise: the release depends on the engine only through the (expression, value) pairs of the attribute's own list, so a flag of one expression or a merged alternation cannot matter; C07_value_matching_no_expression_withheld. Entity categories from raw metadata: C07_categories_only_under_their_name (IFF: the SP's categories are exactly the values listed under the entity-category Name of EntityAttributes, every occurrence), C07_other_entity_attributes_do_not_count, C07_entitlement_from_raw_metadata (values under entity-category-support or any other Name never entitle). Identity VALUES that are not text (Model/PolicyVal.v, values as a sum type text | other kind = int, bool, float, bytes, None, nested list, tuple, dict): C07_value_list_releases_matched_texts_only - IFF, for every expression list and every value list the loop of filter_attribute_value_assertions lets through exactly the TEXTS matched by a single expression; C07_non_text_value_raises / C07_value_list_only_error_is_non_text: a non-text value under a non-empty list raises TypeError (what the code does today: no response at all) and nothing else does; C07_non_text_every_outcome / C07_non_text_authn_response / C07_non_text_attribute_response - FULL: for every typed identity every outcome of setup_assertion (both best_effort values), create_authn_response, create_attribute_response is an exception, an error response, or an assertion permitted in all four clauses in which every value of a list-restricted attribute IS a text value of the identity matched by one expression of that list; C07_typed_policy_filter the same for Policy.filter; C07_str_matching_filter_refuted: a filter judging str(value) and keeping the value releases the int 5 under [\\d+$] (the code raises). ONLY TESTED (not proved): that the model agrees with the Python - function-level and end-to-end correspondence on long-lived Policy/Server objects with request sequences for different SPs, plus an implementation-level release oracle.",
+    "note": "Trusted: Coq kernel + vm_compute; hand-written model tied to the code by the correspondence units; Python re and the attribute maps enter the model as per-case truth tables (quantified in the theorems); str.lower modelled for ASCII, generators use only names on which Python agrees; identities are dicts of lists of values (texts, or the other kinds of Model/PolicyVal.v carried behind the marker U+10FFFF, which generated texts never contain - checked; a bare non-list value is outside the model); in the non-text units any exception counts as `raised` (the class is not property-relevant); value multiplicity/order is not compared (list(set(..)) and list aliasing in filter_on_attributes make it unspecified); pefim and encrypt paths, name_form without converter (releases nothing), create_attribute_response without an aa policy (applies no policy object: observation, lemma C07_attribute_response_no_policy) are outside the claim.",
     "technique": "machine-checked proof (Coq, induction over identities/policies/declarations; regex matcher and attribute map universally quantified) + regenerated-table obligation + function-level and end-to-end sequence correspondence + implementation-level release oracle",
 }
 TRUSTED = [
     "Gen/EntityCat.v is regenerated from every module of saml2_tophat/entity_category by reflection (harness/translate_c07.py)",
     "modelled: assertion.py _filter_values, _match, filter_on_attributes, filter_attribute_value_assertions, post_entity_categories, Policy.compile/get/get_*/filter/restrict(best_effort), Assertion.apply_policy(best_effort); server.py setup_assertion (as repaired by proposed_fix/C07-1.diff), _authn_response (non-pefim), create_attribute_response; mdstore attribute_requirement/entity_categories as the (required, optional, categories) view generated by the harness and written into real metadata XML",
     "re.match and get_local_name are per-case truth tables computed by the harness from Python's re and from the raw attribute-map tables (not through get_local_name); the theorems quantify over every such function",
+    "Model/PolicyVal.v (hand-written): re.match on a non-str raises TypeError; non-text values enter the model as (type name, str(value)) behind a marker code point",
     "the documented entity-category table (Proofs/Policy_lemmas.v documented_ec, harness DOC_EC) is a hand-written statement of what each category entitles to",
 ]
 ASSUMPTIONS = [
-    "identity values are lists of strings (a bare string value makes `val in vals` a substring test; outside the quantifier)",
+    "identity values are lists (a bare string value makes `val in vals` a substring test; outside the quantifier); list elements are texts or int/bool/float/bytes/None/list/tuple/dict values",
     "attribute names contain only characters on which str.lower() is ASCII lower-casing (checked by the generator)",
     "entity categories configured but the SP entitled to nothing (module without an always-released row): no category filter is applied, upstream semantics, stated as lemma C07_ec_entitled_to_nothing, not alarmed on",
 ]
@@ -50,6 +54,7 @@ RULE = ("worlds = generated (policy, SP metadata set) pairs, each with ONE Serve
         "restriction lists of 2-4 expressions with inline flags on the first/a later expression, scoped flags, alternation, anchors, classes, trailing .* and values "
         "matching one/several/none/only-under-a-leaked-flag/only-by-search, under default and per-SP entries; EntityAttributes with several attribute Names "
         "(category values under entity-category-support or another Name, any order, category Name twice); "
+        "identity values that are not text (8 kinds) under expression lists matching their str()/XML rendering: alone, beside matching / non-matching texts, several, under unlisted attributes, default and per-SP entries, idp and aa policies, shuffled sequences on one Server + Policy per world; "
         "fixed worlds: every documented category row, every pattern x value of the regex pool, 8 policy shapes x 7 SPs x 5 identities on the "
         "missing-requirement path (create_authn_response, setup_assertion with both best_effort values, create_attribute_response). "
         "Non-trivial = the filter removed something, raised, or hit the MissingValue path; distinct by content.")
@@ -1294,6 +1299,7 @@ def run(ctx):
     check_lower(ctx)
     unit_functions(ctx)
     unit_worlds(ctx)
+    c07_nontext.unit_nontext(ctx, sys.modules[__name__])
     witness_replay(ctx)
 
 
@@ -1302,6 +1308,9 @@ def replay(ctx, payload):
     print("replay input:", json.dumps(inp, ensure_ascii=False)[:3000])
     env.tool_inprocess(True)
     unit = inp.get("unit")
+    if unit and unit.startswith("nontext_"):
+        c07_nontext.replay(sys.modules[__name__], inp)
+        return 0
     if unit in ("e2e_authn", "e2e_attribute", "restrict", "setup_assertion"):
         w = World(ctx.rng, 0, [], fixed=(inp["sps"], inp["policy"], inp["policy"]))
         if unit == "e2e_authn":
